@@ -139,6 +139,8 @@ pub struct GenOpts {
     /// percent of runs whose top image has an L1 table spanning several
     /// device blocks (small clusters, virtual size of 65..200 L2 tables)
     pub wide_l1_pct: u32,
+    /// percent of runs with a backing chain (when allow_backing)
+    pub backing_pct: u32,
     /// set by gen_cfg for the run being generated
     pub wide_l1_now: bool,
 }
@@ -173,6 +175,7 @@ impl Default for GenOpts {
             racy_discard_pct: 30,
             sync_points: 0,
             wide_l1_pct: 8,
+            backing_pct: 25,
             wide_l1_now: false,
         }
     }
@@ -315,7 +318,7 @@ pub fn gen_cfg(rng: &mut Rng, o: &GenOpts) -> Cfg {
     let mut layers = vec![gen_layer(rng, o, cluster_bits, true, 0)];
     let depth = if o.force_backing {
         rng.range(1, 2)
-    } else if o.allow_backing && rng.chance(1, 4) {
+    } else if o.allow_backing && rng.below(100) < o.backing_pct as u64 {
         rng.range(1, 2)
     } else {
         0
@@ -369,6 +372,11 @@ pub fn gen_cfg(rng: &mut Rng, o: &GenOpts) -> Cfg {
         // only builder images can name a backing file
         for l in layers.iter_mut() {
             l.formatted = false;
+        }
+        // the everyday case: a fresh, empty overlay on top of the chain
+        if rng.chance(1, 3) {
+            layers[0].guest.clear();
+            layers[0].empty_l2.clear();
         }
     }
     // device parameters (the same parameters are handed to every backing
